@@ -672,7 +672,7 @@ func verifStageMatrix(r *gen.Rand) []vsOp {
 // duplicate of a file that is validated and held for its predecessor arrives,
 // then the receiver restarts, then the predecessor arrives (C06, C05)
 // kind < 0: one of the scenarios at random; otherwise the scenario with that number (0 g, 1 f, 2 e, 3 d,
-// 4 c, 5 a, 6 b), variant selecting among its main alternatives - the first lines of every run go through
+// 4 c, 5 a, 6 b, 7 h), variant selecting among its main alternatives - the first lines of every run go through
 // all of them systematically
 func verifStageMatrix2(r *gen.Rand, kind, variant int) []vsOp {
 	sel := func(k, num, den int) bool {
@@ -711,6 +711,36 @@ func verifStageMatrix2(r *gen.Rand, kind, variant int) []vsOp {
 		recv(f, 0, len(f.content))
 	}
 	names := [][2]string{{"site/data.bin", "site/next.bin"}, {"a", "b"}, {"g.1", "g.2"}, {"d/e/x", "d/y"}}[r.Intn(4)]
+	if sel(7, 1, 8) {
+		// (h) the cleaner meets a partial that has been stalled for more than a day and belongs to a
+		// version that was NOT delivered: the re-send of a version that failed validation (variant 0),
+		// or a new version of a name whose old version is known from the receive log (variant 1)
+		F := mk(names[0], "", 4+r.Intn(10))
+		h := len(F.content) / 2
+		if pickN(2) == 0 {
+			bad := append([]byte{}, F.content...)
+			bad[0] ^= 0x5a
+			prep(F)
+			ops = append(ops, vsOp{kind: "RC", part: part(F, 0, len(F.content)), data: bad}, vsOp{kind: "ST"}, vsOp{kind: "SQ", name: F.name, num: -3600})
+			prep(F)
+			recv(F, 0, h)
+		} else {
+			whole(F)
+			ops = append(ops, vsOp{kind: "ST"}, vsOp{kind: "RS"})
+			if r.Chance(1, 2) {
+				ops = append(ops, vsOp{kind: "SQ", name: F.name, num: -3600})
+			}
+			F2 := mk(names[0], "", 4+r.Intn(10))
+			h = len(F2.content) / 2
+			F = F2
+			prep(F)
+			recv(F, 0, h)
+		}
+		ops = append(ops, vsOp{kind: "AG", name: F.name}, vsOp{kind: "CL"}, vsOp{kind: "SC"})
+		recv(F, h, len(F.content))
+		ops = append(ops, vsOp{kind: "ST"}, vsOp{kind: "SQ", name: F.name, num: -3600})
+		return ops
+	}
 	if sel(0, 1, 7) {
 		// (g) a name delivered days ago is used again; the new version is live in the stage - held for
 		// a predecessor that is not there yet, or failed validation and awaiting its re-send - when a
@@ -1182,9 +1212,9 @@ func TestVerifStage(t *testing.T) {
 			N = gen.EnvInt("VERIF_STAGE_RANDOM", 5000)
 		}
 		for c := 0; c < N; c++ {
-			if c < 84 {
+			if c < 96 {
 				// every directed scenario 12 times, its main alternatives in turn
-				cases = append(cases, verifStageMatrix2(root.Sub(uint64(c)), c%7, c/7))
+				cases = append(cases, verifStageMatrix2(root.Sub(uint64(c)), c%8, c/8))
 				continue
 			}
 			cases = append(cases, verifStageGen(root.Sub(uint64(c))))
